@@ -584,6 +584,28 @@ class E1Driver:
     def setup_worker(self) -> None:
         setup_tree()
 
+    def crosscheck(self, prep_dirs: List[str], hashseeds: List[str], seed: int, tier: str = "quick") -> List[Dict[str, Any]]:
+        tabs = []
+        for d in prep_dirs:
+            try:
+                with open(os.path.join(d, "pristine.json")) as f:
+                    tabs.append(json.load(f))
+            except Exception:
+                return []
+        out: List[Dict[str, Any]] = []
+        if len(tabs) == 2 and tabs[0] != tabs[1]:
+            diff = [k for k in tabs[0] if tabs[0][k] != tabs[1].get(k)]
+            docs = corpus.build_corpus(seed, *CORPUS[tier])
+            k0 = diff[0]
+            doc = docs[int(k0.split(":")[0])] if int(k0.split(":")[0]) < len(docs) else {"text": "", "name": "?"}
+            out.append({"engine": "E1", "property": PROP, "seed": seed, "run": "pristine", "hashseed": hashseeds[0],
+                        "kind": "hashseed", "hashseeds": hashseeds, "doc": doc, "allow_properties": bool(int(k0.split(":")[1])),
+                        "ops": [], "violation": {"property": PROP, "oracle": "content",
+                                                 "signature": "content:pristine-depends-on-hash-seed",
+                                                 "detail": {"differing": len(diff), "first": k0, "doc": doc.get("name"),
+                                                            "outcomes": [tabs[0][k0], tabs[1].get(k0)]}}})
+        return out
+
     def run_one(self, i: int, seed: int, tier: str, hashseed: str) -> Dict[str, Any]:
         rseed = core.run_seed(seed, PROP, i)
         wl = gen_workload(rseed, tier)
@@ -640,6 +662,20 @@ class E1Driver:
         return res
 
     def replay(self, payload: Dict[str, Any]) -> Optional[Dict[str, Any]]:
+        if payload.get("kind") == "hashseed":
+            import subprocess
+            outs = []
+            code = ("import sys, json; sys.path.insert(0, %r); from sim import e1_threads as E; E.setup_tree(); "
+                    "print(json.dumps(E.outcome_of(sys.stdin.read(), %r)))" % (core.VERIF_DIR, payload["allow_properties"]))
+            for hs in payload["hashseeds"]:
+                r = subprocess.run([sys.executable, "-c", code], input=payload["doc"]["text"], capture_output=True,
+                                   text=True, env=dict(os.environ, PYTHONHASHSEED=str(hs)), timeout=300)
+                outs.append(r.stdout.strip())
+            if outs[0] != outs[1]:
+                v = dict(payload["violation"])
+                v["detail"] = {"outcomes": outs}
+                return v
+            return None
         res = self.replay_once(payload["workload"], payload["schedule"])
         want = payload.get("violation", {}).get("signature")
         for v in res["violations"]:
@@ -650,6 +686,11 @@ class E1Driver:
         return res["violations"][0] if res["violations"] else None
 
     def minimize(self, payload: Dict[str, Any], budget_s: float = 150.0) -> Dict[str, Any]:
+        if payload.get("kind") == "hashseed":
+            return payload
+        return self._minimize(payload, budget_s)
+
+    def _minimize(self, payload: Dict[str, Any], budget_s: float = 150.0) -> Dict[str, Any]:
         """Drop whole threads, operations, warm-up parses and then context
         switches, keeping a candidate only if the same oracle signature fails."""
         import copy
